@@ -12,21 +12,21 @@ import (
 )
 
 type SpecEnv struct {
-	g           *Gen
-	st          *State
-	old         *State
-	vars        map[string]Val
-	results     []Val
-	resultNames []string
-	atReturn    bool
-	useLocals   bool
-	atLoop      *loopInfo
-	calleePkg   *types.Package
-	calleeFn    *ssa.Function
-	depth       int
-	inQuant     bool
-	cur         *State // inside old(): the current state (ghosts and the range index are read from it)
-	triggers    []Expr
+	g             *Gen
+	st            *State
+	old           *State
+	vars          map[string]Val
+	results       []Val
+	resultNames   []string
+	atReturn      bool
+	useLocals     bool
+	atLoop        *loopInfo
+	calleePkg     *types.Package
+	calleeFn      *ssa.Function
+	depth         int
+	inQuant       bool
+	cur           *State // inside old(): the current state (ghosts and the range index are read from it)
+	triggers      []Expr
 	noRangeGuards bool // axioms over uninterpreted spec functions quantify over mathematical integers
 }
 
